@@ -239,3 +239,195 @@ class GetNextTasks(Unit):
 
         ctx.eng.explore(thunk)
         ctx.bounded.append({"unit": self.name, "bound": "n_staged=%d" % n, "status": status_c})
+
+
+# ================================================================================================
+# get_next_tasks for a staged list of UNBOUNDED length: guard + one generic loop iteration + suffix
+# ================================================================================================
+from pyvc import seqlib
+from pyvc.sym import SBool, SConst, SInt, SList, INTERN
+
+
+def fresh_staged_list(e):
+    """staged entries of arbitrary number; every field symbolic"""
+    I = z3.IntSort()
+    f = {n: z3.Function(S.fresh_name("stg_" + n), I, srt) for n, srt in [
+        ("id", I), ("route", I), ("ready", z3.BoolSort()), ("has_completed", z3.BoolSort()), ("completed", z3.BoolSort()),
+        ("has_rof", z3.BoolSort()), ("rof", z3.BoolSort()), ("has_retry", z3.BoolSort()), ("has_delay", z3.BoolSort()),
+        ("delay", I)]}
+    m = z3.Int(S.fresh_name("n_staged"))
+    e.assume(m >= 0)
+
+    def get(j):
+        j = seqlib.zidx(j)
+        return {"id": SConst(f["id"](j)), "route": SInt(f["route"](j)), "ready": SBool(f["ready"](j)),
+                "completed": OptField(f["has_completed"](j), SBool(f["completed"](j))),
+                "run_on_fail": OptField(f["has_rof"](j), SBool(f["rof"](j))),
+                "retry": OptField(f["has_retry"](j), {"delay": OptField(f["has_delay"](j), SInt(f["delay"](j))), "count": 1}),
+                "__idx": SInt(j)}
+    return SList(m, get, "staged"), f, m
+
+
+class GetNextTasksUnbounded(Unit):
+    name = "C.get_next_tasks.unbounded"
+    functions = ["orquesta.conducting.WorkflowConductor.get_next_tasks", "orquesta.conducting.WorkflowState.get_staged_tasks"]
+    obligations = {
+        "C04.gnt.guard_any_state": {"props": ["C04", "C09", "C10", "C03"], "text":
+            "for a staged list of any length: outside the running statuses, and unless the workflow is failed with a ready run-on-fail entry, get_next_tasks returns [] without rendering, logging or requesting anything"},
+        "C01.gnt.offer_justified": {"props": ["C01", "C04", "C12", "C13"], "text":
+            "for a staged list of any length, in an arbitrary loop iteration: whatever is appended to the offers is the rendering of a staged entry that is ready and not completed (and run_on_fail when the workflow is failed), carries that entry's id and route, and its delay is the entry's retry delay (or 0) when it carries a retry"},
+        "C11.gnt.iteration_contained": {"props": ["C11"], "text":
+            "in an arbitrary loop iteration a rendering exception is caught, logged with the entry's id and route, and marks the call as failed; after the loop a marked call requests failed and returns []"},
+        "C19.gnt.sorted_any": {"props": ["C19"], "text":
+            "on normal completion the result is sorted(offers, key=(id, route)) of the accumulated offers"},
+    }
+    assumptions = [
+        "loop summary: the loop body is verified for one arbitrary element of the iterated list from an arbitrary accumulator state; offers are only appended and the failure flag only set (shown per iteration) - the lift to all iterations is this monotonicity argument, not re-proved by the solver",
+        "get_task / _evaluate_task_actions: assumed contracts (may raise anything; return a task dict for the requested id/route)",
+        "sequence axioms (filter) of DESIGN Appendix A",
+    ]
+    trusted = ["z3 5.1 (quantified VCs)", "pyvc sequence library"]
+    timeout_ms = 20000
+
+    def splits(self, tier):
+        return list(WF_STATUSES)
+
+    def run_split(self, ctx, split):
+        status_c = split
+        first = [True]
+
+        def thunk(e):
+            e.register_input("status", status_c)
+            staged, f, m = fresh_staged_list(e)
+            c, ws = cbase.new_conductor(status_c, staged=staged)
+            log = cbase.CallLog()
+            state = {"iter": None}
+
+            def get_task(eng, self_, task_id, route):
+                log.add("get_task", task_id, route)
+                if eng.branch(S.mk_bool("render_raises").z):
+                    raise Raised(Exception, ("render error",))
+                return {"id": task_id, "route": route, "ctx": {}, "actions": [{"a": 1}],
+                        "spec": AbstractObj("ts", has_items=Stub("has_items", lambda en: False)),
+                        "delay": cbase.opt(eng, "specdelay", S.mk_int("specdelay"))}
+
+            def eta(eng, self_, task):
+                log.add("eta", task)
+                if eng.branch(S.mk_bool("eta_raises").z):
+                    raise Raised(KeyError, ("items",))
+                k = eng.choose(3)
+                if k == 1:
+                    task["actions"] = []
+                elif k == 2:
+                    task["actions"] = []
+                    task["items_count"] = 0
+                return task
+
+            def log_error(eng, self_, err, task_id=None, route=None, task_transition_id=None):
+                log.add("log_error", err, task_id=task_id, route=route)
+
+            def rws(eng, self_, status):
+                log.add("rws", status)
+
+            e.overrides[conducting.WorkflowConductor.get_task] = get_task
+            e.overrides[conducting.WorkflowConductor._evaluate_task_actions] = eta
+            e.overrides[conducting.WorkflowConductor.log_error] = log_error
+            e.overrides[conducting.WorkflowConductor.request_workflow_status] = rws
+
+            def loop(en, st_, env):
+                xs = en.eval(st_.iter, env)
+                if not isinstance(xs, SList):
+                    raise S.Unsupported("expected a symbolic list of staged entries")
+                state["xs"] = xs
+                if en.branch(xs.length > 0):
+                    i = z3.Int(S.fresh_name("iter"))
+                    en.assume(z3.And(0 <= i, i < xs.length))
+                    elem = xs.get(i)
+                    acc = env.lookup("next_tasks")
+                    assert acc == []
+                    state["iter"] = {"elem": elem, "acc_before": list(acc), "log_before": len(log.calls)}
+                    en.assign(st_.target, elem, env)
+                    try:
+                        en.exec_block(st_.body, env)
+                    except __import__("pyvc.engine", fromlist=["_Continue"])._Continue:
+                        pass
+                    state["iter"]["acc_after"] = list(env.lookup("next_tasks"))
+                    state["iter"]["flag_after"] = env.lookup("fail_on_task_rendering")
+                    state["iter"]["calls"] = log.calls[state["iter"]["log_before"]:]
+                # arbitrary accumulator after all iterations
+                flag = S.mk_bool("any_iteration_failed")
+                mine = state["iter"] and state["iter"]["flag_after"]
+                if mine is True:
+                    en.assume(flag.z)
+                env.locals["fail_on_task_rendering"] = flag
+                env.locals["next_tasks"] = "ACCUMULATED_OFFERS"
+
+            e.loop_handlers["WorkflowConductor.get_next_tasks:remediation_tasks or staged_tasks"] = loop
+            sorted_calls = []
+
+            def m_sorted(en, args, kwargs, anysym):
+                if args and args[0] == "ACCUMULATED_OFFERS":
+                    sorted_calls.append(kwargs.get("key"))
+                    return "SORTED_OFFERS"
+                return orig_sorted(en, args, kwargs, anysym)
+            orig_sorted = seqlib.BUILTIN_MODELS[sorted]
+            seqlib.BUILTIN_MODELS[sorted] = m_sorted
+            raised = None
+            try:
+                res = e.call(conducting.WorkflowConductor.get_next_tasks, [c], {})
+            except Raised as r:
+                raised = r
+            finally:
+                seqlib.BUILTIN_MODELS[sorted] = orig_sorted
+            if first[0]:
+                ctx.canary()
+                first[0] = False
+            info = {"status": status_c, "entered_loop": state.get("xs") is not None}
+            if raised is not None:
+                ctx.oblige("C11.gnt.iteration_contained", False, None, dict(info, raised=repr(raised)))
+                return
+            offering = status_c in OFFERING
+            j = z3.Int(S.fresh_name("gj"))
+            rdy = lambda q: z3.And(f["ready"](q), z3.Not(z3.And(f["has_completed"](q), f["completed"](q))))
+            rofq = lambda q: z3.And(f["has_rof"](q), f["rof"](q))
+            any_rof_ready = z3.Exists([j], z3.And(0 <= j, j < m, rdy(j), rofq(j)))
+            closed = z3.And(z3.BoolVal(not offering), z3.Not(z3.And(z3.BoolVal(status_c == st.FAILED), any_rof_ready)))
+            untouched = (res == [] and not log.calls and state.get("xs") is None)
+            ctx.oblige("C04.gnt.guard_any_state", z3.Implies(closed, z3.BoolVal(untouched)), None, info)
+            it = state["iter"]
+            if it is not None:
+                elem = it["elem"]
+                q = elem["__idx"].z
+                new = [t for t in it["acc_after"] if t not in it["acc_before"]]
+                just = z3.And(rdy(q), rofq(q) if status_c == st.FAILED else z3.BoolVal(True), 0 <= q, q < m)
+                ok = len(new) <= 1
+                cl = [z3.BoolVal(ok), z3.Implies(z3.BoolVal(bool(new)), just)]
+                for t in new:
+                    cl.append(z3.BoolVal(t["id"] is elem["id"] and t["route"] is elem["route"]))
+                    has_retry = f["has_retry"](q)
+                    dv = t.get("delay")
+                    if isinstance(dv, OptField):
+                        dz, present = dv.value.z, zb(dv.present)
+                    elif dv is None:
+                        dz, present = z3.IntVal(0), z3.BoolVal(False)
+                    else:
+                        dz, present = (dv.z if isinstance(dv, SInt) else z3.IntVal(dv)), z3.BoolVal(True)
+                    want = z3.If(z3.And(f["has_delay"](q), f["delay"](q) != 0), f["delay"](q), 0)
+                    cl.append(z3.Implies(has_retry, z3.And(present, dz == want)))
+                ctx.oblige("C01.gnt.offer_justified", z3.And(cl), None, info)
+                raised_in_iter = any(c_[0] == "log_error" for c_ in it["calls"])
+                stub_raised = it["flag_after"] is True
+                logged = [c_ for c_ in it["calls"] if c_[0] == "log_error" and c_[2].get("task_id") is elem["id"]
+                          and c_[2].get("route") is elem["route"]]
+                ctx.oblige("C11.gnt.iteration_contained", (stub_raised == raised_in_iter) and (not stub_raised or (len(logged) == 1 and not new)),
+                           None, info)
+            if state.get("xs") is not None:
+                # suffix
+                flag_calls = log.named("rws")
+                if res == []:
+                    ctx.oblige("C11.gnt.iteration_contained", flag_calls == [("rws", (st.FAILED,), {})], None, info)
+                else:
+                    ctx.oblige("C11.gnt.iteration_contained", not flag_calls, None, info)
+                    ctx.oblige("C19.gnt.sorted_any", res == "SORTED_OFFERS" and len(sorted_calls) == 1, None, info)
+
+        ctx.eng.explore(thunk)
